@@ -48,7 +48,7 @@ class C09(HndBase):
             "len+1, 16384, 16385, 2^31, 2^32-1, sums that wrap 32 bits), piece switches; the manager-side answer is LOAD exactly "
             "when it has the peer unchoked and owns the piece. Oracle: each request is answered by nothing or by one Piece "
             "with the same index/offset and exactly the stored bytes, only while we have the peer unchoked, within the piece, "
-            "at most 16 KiB, and the task never panics. Non-trivial: histories with a request for a stored piece; distinct lines.")
+            "at most 16 KiB, and the task never panics. End to end (part C09Sys): scripted remotes that download from the client while it downloads from seeders check every block they receive against the original content and the piece store. Non-trivial: histories with a request for a stored piece; distinct lines.")
     statement_status = "see Props/C09.v"
 
     def corpus(self):
@@ -126,6 +126,41 @@ class C09Release(C09):
         return c
 
 
+from sysbase import SysBase, geometry
+
+
+class C09Sys(SysBase):
+    """end to end: remotes that download FROM the client ('leech': own nothing, ask for every piece the client advertises as
+    soon as it is unchoked, check every block received against the original content) next to the seeders the client
+    downloads from -- the real Session, real tasks, real piece files written by real downloads and read back for upload"""
+    id = "C09"
+    needs_uploads = True          # non-trivial: at least one block was uploaded and checked
+    coq_header = "From Rdest Require Import Base Corr.Sys.\nOpen Scope N_scope.\nDefinition codes := codes09s.\n"
+    rule = ""
+
+    def corpus(self):
+        return [self.mk(21, 16384, [40000], [("111", "honest"), ("000", "leech 1")], "upload", True),
+                self.mk(22, 20000, [30000, 9], [("11", "slow"), ("00", "leech 0"), ("00", "leech 1")], "upload", True)]
+
+    def gen(self, rng, tier):
+        k = {"quick": 24, "thorough": 400, "search": 80}.get(tier, 24)
+        cases = []
+        for _ in range(k):
+            pl, flens, n = geometry(rng)
+            seeders = rng.choice([1, 1, 2, 3])
+            have = [[rng.random() < 0.6 for _ in range(n)] for _ in range(seeders)]
+            for i in range(n):
+                if not any(h[i] for h in have):
+                    have[rng.randrange(seeders)][i] = True
+            peers = [("".join("1" if x else "0" for x in h), rng.choice(["honest", "honest", "slow", "dup", "corrupt %d" % rng.randrange(2, 5)]))
+                     for h in have]
+            for _ in range(rng.choice([1, 1, 2, 3])):
+                peers.append(("0" * n, "leech %d" % rng.choice([0, 1])))
+            rng.shuffle(peers)
+            cases.append(self.mk(rng.randrange(1, 10 ** 6), pl, flens, peers, "upload", False))
+        return cases
+
+
 PROP = C09()
-PROP.parts = [PROP, C09Mgr()]
+PROP.parts = [PROP, C09Mgr(), C09Sys()]
 PROP.release_parts = [C09Release()]
